@@ -12,6 +12,7 @@ use crate::l1_limb::*;
 use crate::l2_core::*;
 use crate::l2_shift::*;
 use crate::l3_mul::*;
+use crate::l4_safegcd::*;
 verus! {
 
 //@@ subst \b(Self|Uint)::(ZERO|ONE|MAX|BITS|LOG2_BITS)\b(?!\() => \1::\2()
@@ -837,6 +838,7 @@ proof fn lemma_inv_mod_decide(x: int, m: int, s: int, k: nat)
     let pk = p2(k);
     assert(m >= 1) by (nonlinear_arith) requires m == s * pk, s >= 1, pk >= 1;
     assert(m == s * pk + 0);
+    assert(m == pk * s + 0) by (nonlinear_arith) requires m == s * pk;
     lemma_fundamental_div_mod_converse(m, s, pk, 0);
     lemma_coprime_divisor(x as nat, m as nat, s as nat);
     if k != 0 {
@@ -884,33 +886,32 @@ proof fn lemma_p2_divides_mono(x: int, k: nat, k1: nat)
 }
 
 // ---------------------------------------------------------------- safegcd interface (src/modular/safegcd.rs, src/traits.rs)
+// `UnsatInt`, `SafeGcdInverter` and their methods (new / inv / gcd / gcd_vartime ...) are proved in unit l4_safegcd.
+// ASSUMED, type-level: the macro `impl_precompute_inverter_trait!` (src/uint/macros.rs) binds UNSAT_LIMBS = safegcd_nlimbs!(BITS) in
+// the impls of `PrecomputeInverter` that Verus cannot see; the functions below therefore carry `sg_sizes(LIMBS, UNSAT_LIMBS)`.
+/// the relation between the two limb counts established by `impl_precompute_inverter_trait!`, and the size limit of l4_safegcd
+pub open spec fn sg_sizes(sat: int, unsat: int) -> bool { sat >= 1 && sg_nlimbs_ok(sat, unsat) && unsat <= SG_MAX_UNSAT() }
+
+/// the gcd of l4_safegcd (`sg_gcd`) is this unit's `gcd` (same Euclidean recursion)
+pub proof fn lemma_sg_gcd_eq(a: nat, b: nat)
+    ensures sg_gcd(a, b) == gcd(a, b)
+    decreases b
+{ if b != 0 { lemma_sg_gcd_eq(b, a % b); } }
+
 // Trait plumbing for the headers `where Odd<Self>: PrecomputeInverter<Inverter = SafeGcdInverter<..>>`.
 // Only the associated types of the two traits of src/traits.rs are declared: their methods return
 // subtle::CtOption and are not called by any function of this unit.
 pub trait Inverter { type Output; }
 pub trait PrecomputeInverter { type Inverter: Inverter<Output = Self::Output> + Sized; type Output; }
-//@@ item src/modular/safegcd.rs | struct UnsatInt
-#[derive(Clone, Copy)]
-pub struct UnsatInt<const LIMBS: usize>(pub [u64; LIMBS]);
-//@@ end
-//@@ item src/modular/safegcd.rs | struct SafeGcdInverter
-#[derive(Clone)]
-pub struct SafeGcdInverter<const SAT_LIMBS: usize, const UNSAT_LIMBS: usize> {
-    pub modulus: UnsatInt<UNSAT_LIMBS>,
-    pub adjuster: UnsatInt<UNSAT_LIMBS>,
-    pub inverse: i64,
-}
-//@@ end
 impl<const SAT_LIMBS: usize, const UNSAT_LIMBS: usize> Inverter for SafeGcdInverter<SAT_LIMBS, UNSAT_LIMBS> { type Output = Uint<SAT_LIMBS>; }
 
-//@@ fn src/uint/inv_mod.rs | impl<const LIMBS: usize, const UNSAT_LIMBS: usize> Uint<LIMBS> where Odd<Self>: PrecomputeInverter<Inverter = SafeGcdInverter<LIMBS, UNSAT_LIMBS>>, | inv_odd_mod | stub | props C10 C11
+//@@ fn src/uint/inv_mod.rs | impl<const LIMBS: usize, const UNSAT_LIMBS: usize> Uint<LIMBS> where Odd<Self>: PrecomputeInverter<Inverter = SafeGcdInverter<LIMBS, UNSAT_LIMBS>>, | inv_odd_mod | body | props C10 C11
 impl<const LIMBS: usize, const UNSAT_LIMBS: usize> Uint<LIMBS> where Odd<Self>: PrecomputeInverter<Inverter = SafeGcdInverter<LIMBS, UNSAT_LIMBS>>, {
-#[verifier::external_body]
 pub const fn inv_odd_mod(&self, modulus: &Odd<Self>) -> (ret__: ConstCtOption<Self>)
 //@+
-    // ASSUMED (Bernstein-Yang safegcd, src/modular/safegcd.rs: SafeGcdInverter::new + inv; not verified here).
-    // Total: no precondition on the modulus, because Uint::inv_mod calls it with Odd(0) for a zero modulus.
-    requires 1 <= LIMBS < 0x400_0000
+    // PROVED from l4_safegcd (SafeGcdInverter::new + inv).  Domain: an odd modulus, or 0 -- Uint::inv_mod calls it with Odd(0) for a
+    // zero modulus and discards the result; the call is total there (no panic, no overflow), nothing is claimed about the value.
+    requires sg_sizes(LIMBS as int, UNSAT_LIMBS as int), modulus.0.v() % 2 == 1 || modulus.0.v() == 0
     ensures ret__.is_some.wf(),
         // (N)+(C): invertibility is decided exactly for an odd modulus
         modulus.0.v() % 2 == 1 ==> ret__.is_some.t() == (gcd(self.v() as nat, modulus.0.v() as nat) == 1),
@@ -918,18 +919,28 @@ pub const fn inv_odd_mod(&self, modulus: &Odd<Self>) -> (ret__: ConstCtOption<Se
         (modulus.0.v() % 2 == 1 && ret__.is_some.t()) ==> (self.v() * ret__.value.v()) % modulus.0.v() == 1int % modulus.0.v(),
         (modulus.0.v() % 2 == 1 && modulus.0.v() >= 2 && ret__.is_some.t()) ==> 0 <= ret__.value.v() < modulus.0.v(),
         // modulus 1: the adjuster 1 is not < modulus, the value is 0 or 1 (observed: both occur)
-        modulus.0.v() == 1 ==> 0 <= ret__.value.v() <= 1
+        modulus.0.v() == 1 ==> 0 <= ret__.value.v() <= 1,
+        modulus.0.v() % 2 == 1 ==> 0 <= ret__.value.v() <= modulus.0.v()
 //@-
 {
-    unimplemented!()
-}
+//@+
+    proof {
+        let mv = modulus.0.v(); let xv = self.v();
+        lemma_val_bound(modulus.0.limbs@, LIMBS as nat); lemma_val_bound(self.limbs@, LIMBS as nat);
+        lemma_sg_gcd_eq(mv as nat, xv as nat);
+        lemma_gcd_sym(mv as nat, xv as nat);
+        assert forall|r: int| #[trigger] (r * xv) == xv * r by { assert(r * xv == xv * r) by (nonlinear_arith); }
+    }
+//@-
+        SafeGcdInverter::<LIMBS, UNSAT_LIMBS>::new(modulus, &Uint::ONE()).inv(self)
+    }
 }
 //@@ end
 //@@ fn src/uint/inv_mod.rs | impl<const LIMBS: usize, const UNSAT_LIMBS: usize> Uint<LIMBS> where Odd<Self>: PrecomputeInverter<Inverter = SafeGcdInverter<LIMBS, UNSAT_LIMBS>>, | inv_mod | body | props C10 C11
 impl<const LIMBS: usize, const UNSAT_LIMBS: usize> Uint<LIMBS> where Odd<Self>: PrecomputeInverter<Inverter = SafeGcdInverter<LIMBS, UNSAT_LIMBS>>, {
 pub const fn inv_mod(&self, modulus: &Self) -> (ret__: ConstCtOption<Self>)
 //@+
-    requires 1 <= LIMBS < 0x400_0000
+    requires sg_sizes(LIMBS as int, UNSAT_LIMBS as int)
     ensures ret__.is_some.wf(),
         modulus.v() == 0 ==> !ret__.is_some.t(),
         modulus.v() >= 1 ==> ret__.is_some.t() == (gcd(self.v() as nat, modulus.v() as nat) == 1),
@@ -1026,40 +1037,11 @@ pub const fn as_ref(&self) -> (ret__: &T)
     }
 }
 //@@ end
-//@@ fn src/modular/safegcd.rs | impl<const SAT_LIMBS: usize, const UNSAT_LIMBS: usize> SafeGcdInverter<SAT_LIMBS, UNSAT_LIMBS> | gcd | stub | props C10 C11
-impl<const SAT_LIMBS: usize, const UNSAT_LIMBS: usize> SafeGcdInverter<SAT_LIMBS, UNSAT_LIMBS> {
-#[verifier::external_body]
-pub const fn gcd(f: &Uint<SAT_LIMBS>, g: &Uint<SAT_LIMBS>) -> (ret__: Uint<SAT_LIMBS>)
-//@+
-    // ASSUMED (Bernstein-Yang safegcd core, not verified here). Domain: as used by the callers --
-    // Uint::gcd passes an odd `g` (and a possibly even `f`), Odd::gcd_vartime an odd `f`; both zero for gcd(0, 0).
-    requires 1 <= SAT_LIMBS < 0x400_0000, f.v() % 2 == 1 || g.v() % 2 == 1 || (f.v() == 0 && g.v() == 0)
-    ensures ret__.v() == gcd(f.v() as nat, g.v() as nat)
-//@-
-{
-    unimplemented!()
-}
-}
-//@@ end
-//@@ fn src/modular/safegcd.rs | impl<const SAT_LIMBS: usize, const UNSAT_LIMBS: usize> SafeGcdInverter<SAT_LIMBS, UNSAT_LIMBS> | gcd_vartime | stub | props C10 C11 C15
-impl<const SAT_LIMBS: usize, const UNSAT_LIMBS: usize> SafeGcdInverter<SAT_LIMBS, UNSAT_LIMBS> {
-#[verifier::external_body]
-pub const fn gcd_vartime(f: &Uint<SAT_LIMBS>, g: &Uint<SAT_LIMBS>) -> (ret__: Uint<SAT_LIMBS>)
-//@+
-    // ASSUMED (Bernstein-Yang safegcd core, variable-time variant; not verified here)
-    requires 1 <= SAT_LIMBS < 0x400_0000, f.v() % 2 == 1 || g.v() % 2 == 1 || (f.v() == 0 && g.v() == 0)
-    ensures ret__.v() == gcd(f.v() as nat, g.v() as nat)
-//@-
-{
-    unimplemented!()
-}
-}
-//@@ end
 //@@ fn src/uint/gcd.rs | impl<const SAT_LIMBS: usize, const UNSAT_LIMBS: usize> Uint<SAT_LIMBS> where Odd<Self>: PrecomputeInverter<Inverter = SafeGcdInverter<SAT_LIMBS, UNSAT_LIMBS>>, | gcd | body | props C10 C11
 impl<const SAT_LIMBS: usize, const UNSAT_LIMBS: usize> Uint<SAT_LIMBS> where Odd<Self>: PrecomputeInverter<Inverter = SafeGcdInverter<SAT_LIMBS, UNSAT_LIMBS>>, {
 pub const fn gcd(&self, rhs: &Self) -> (ret__: Self)
 //@+
-    requires 1 <= SAT_LIMBS < 0x400_0000
+    requires sg_sizes(SAT_LIMBS as int, UNSAT_LIMBS as int)
     ensures ret__.v() == gcd(self.v() as nat, rhs.v() as nat)
 //@-
 {
@@ -1083,6 +1065,7 @@ pub const fn gcd(&self, rhs: &Self) -> (ret__: Self)
             lemma_gcd_pow2_split(av, bv, k as nat, s1.v(), s2.v(), w);
             assert(g.v() % 2 == 1);
         }
+        lemma_sg_gcd_eq(f.v() as nat, g.v() as nat);
     }
 //@-
         <Odd<Self> as PrecomputeInverter>::Inverter::gcd(&f, &g)
@@ -1095,10 +1078,13 @@ pub const fn gcd(&self, rhs: &Self) -> (ret__: Self)
 impl<const SAT_LIMBS: usize, const UNSAT_LIMBS: usize> Odd<Uint<SAT_LIMBS>> where Self: PrecomputeInverter<Inverter = SafeGcdInverter<SAT_LIMBS, UNSAT_LIMBS>>, {
 pub const fn gcd_vartime(&self, rhs: &Uint<SAT_LIMBS>) -> (ret__: Uint<SAT_LIMBS>)
 //@+
-    requires 1 <= SAT_LIMBS < 0x400_0000, self.0.v() % 2 == 1
+    requires sg_sizes(SAT_LIMBS as int, UNSAT_LIMBS as int), self.0.v() % 2 == 1
     ensures ret__.v() == gcd(self.0.v() as nat, rhs.v() as nat)
 //@-
 {
+//@+
+    proof { lemma_sg_gcd_eq(self.0.v() as nat, rhs.v() as nat); }
+//@-
         <Self as PrecomputeInverter>::Inverter::gcd_vartime(self.as_ref(), rhs)
     }
 }
